@@ -126,3 +126,149 @@ def rt_eq_defaults(req):
 
 
 RT['eq_defaults'] = rt_eq_defaults
+
+
+# ----------------------------------------------------------------------------- C07: more adversarial callables (round 7)
+ADV2_SOURCES = '''
+import functools, unittest.mock, random
+from sigtools import specifiers, modifiers
+def g(a, b=1, *, c=2): return a
+class EqArray:
+    # a callable whose == does not answer with a bool (arrays, symbolic expressions)
+    def __eq__(self, other): return _NoTruth()
+    __hash__ = object.__hash__
+    def __call__(self, x, y=0): return x
+class _NoTruth:
+    def __bool__(self): raise ValueError("truth value is ambiguous")
+eqarr = EqArray()
+def fwd_eqarr(*args, **kwargs): return eqarr(*args, **kwargs)
+class MissingTarget:
+    @specifiers.forwards_to_method('missing')
+    def m(self, *args, **kwargs): return self.missing(*args, **kwargs)
+    def via(self, *args, **kwargs): return self.m(*args, **kwargs)
+missing_inst = MissingTarget()
+def fwd_missing(*args, **kwargs): return missing_inst.m(*args, **kwargs)
+def deep_expr(a, *args, **kwargs):
+    return g(*args, **kwargs) and (%s)
+def loop1(*args, **kwargs): return g(*args, **kwargs)
+loop1.__wrapped__ = loop1
+def loop2a(*args, **kwargs): return g(*args, **kwargs)
+def loop2b(*args, **kwargs): return g(*args, **kwargs)
+loop2b.__annotations__ = loop2a.__annotations__
+loop2a.__wrapped__ = loop2b
+loop2b.__wrapped__ = loop2a
+class Plain:
+    def __init__(self, u, v=1): pass
+def wraps_class(*args, **kwargs): return Plain(*args, **kwargs)
+wraps_class.__wrapped__ = Plain
+class Holder:
+    @staticmethod
+    def sm(a, b): return a
+    @classmethod
+    def cm(cls, a, b=1): return a
+    def im(self, a, b=2): return a
+class HolderSub(Holder):
+    pass
+bound_im = Holder().im
+rand_like = random.Random(0).randint
+mock_obj = unittest.mock.Mock()
+OBJECTS = [eqarr, fwd_eqarr, missing_inst.via, fwd_missing, deep_expr, loop1, loop2a, wraps_class, mock_obj]
+DECLARED = [missing_inst.m]
+HOOK = ['Holder.sm', 'Holder.cm', 'Holder.im', 'HolderSub.sm', 'HolderSub.cm', 'HolderSub.im', 'bound_im', 'rand_like', 'g']
+''' % ' + '.join(['a'] * 700)
+
+
+class _Timeout(BaseException):
+    pass
+
+
+def _alarm(*a):
+    raise _Timeout()
+
+
+def _outcome(fn, obj, secs=10):
+    import signal
+    old = signal.signal(signal.SIGALRM, _alarm)
+    signal.alarm(secs)
+    try:
+        try:
+            with warnings.catch_warnings():
+                warnings.simplefilter('ignore')
+                r = fn(obj)
+        except _Timeout:
+            return ('hangs', 'no answer after %d s' % secs, None)
+        except BaseException as e:  # noqa
+            return ('raised', type(e).__name__, None)
+        return ('ok', type(r).__name__, r)
+    finally:
+        signal.alarm(0)
+        signal.signal(signal.SIGALRM, old)
+
+
+def rt_adversarial2(req):
+    """C07 on further adversarial callables: whatever inspect.signature answers, the three retrieval functions answer (same
+    exception class when it raises); the attributes of the objects are what they were; the Sphinx hook prints what
+    inspect prints for static / class / instance methods reached through a class or as module-level bound methods"""
+    import sys as _sys
+    from . import progs
+    from sigtools import specifiers, sphinxext
+    mod, fname = progs.load_module(ADV2_SOURCES)
+    problems = []
+    n = 0
+    try:
+        for declared, objs in ((False, mod.OBJECTS), (True, mod.DECLARED)):
+            for obj in objs:
+                n += 1
+                before = {k: sorted(vars(o)) for k, o in (('obj', obj), ('Plain', mod.Plain)) if hasattr(o, '__dict__')}
+                insp = _outcome(inspect.signature, obj)
+                for name, fn in (('sigtools.signature', sigtools.signature),
+                                 ('signature(auto=False)', lambda o: specifiers.signature(o, auto=False)),
+                                 ('signatures.signature', signatures.signature)):
+                    o = _outcome(fn, obj)
+                    what = getattr(obj, '__qualname__', None) or type(obj).__name__
+                    if o[0] == 'hangs':
+                        problems.append('retrieval-hangs: %s(%s): %s (inspect.signature: %s %s)' % (name, what, o[1], insp[0], insp[1]))
+                    elif insp[0] == 'ok' and o[0] != 'ok':
+                        if declared and o[1] == 'ValueError':
+                            continue        # an explicit declaration that cannot be honoured surfaces as ValueError
+                        key = 'retrieval-raises'
+                        if type(obj).__module__ == 'unittest.mock':
+                            key = 'retrieval-raises-answers-every-attribute'
+                        problems.append('%s: %s(%s) raised %s although inspect.signature succeeds' % (key, name, what, o[1]))
+                    elif insp[0] == 'raised' and o[0] == 'raised' and o[1] != insp[1]:
+                        problems.append('different-exception: %s(%s) raised %s, inspect.signature raised %s' % (name, what, o[1], insp[1]))
+                    elif insp[0] == 'raised' and o[0] == 'ok':
+                        problems.append('answers-where-inspect-raises: %s(%s) returned %s, inspect.signature raised %s' % (name, what, o[2], insp[1]))
+                after = {k: sorted(vars(o)) for k, o in (('obj', obj), ('Plain', mod.Plain)) if hasattr(o, '__dict__')}
+                if after != before:
+                    problems.append('retrieval-leaves-attributes: after retrieving the signature of %s the attributes are %s, were %s' % (
+                        getattr(obj, '__qualname__', obj), after, before))
+        _sys.modules[mod.__name__] = mod
+        try:
+            for dotted in mod.HOOK:
+                o = mod
+                for part in dotted.split('.'):
+                    o = getattr(o, part)
+                if '.' in dotted and isinstance(o, type(rt_adversarial2)) and not isinstance(
+                        inspect.getattr_static(getattr(mod, dotted.split('.')[0]), dotted.split('.')[1]), staticmethod):
+                    # an instance method reached through its class is documented as called on an instance
+                    o = getattr(getattr(mod, dotted.split('.')[0])(), dotted.split('.')[1])
+                want_sig = inspect.signature(o)
+                want = (str(want_sig.replace(return_annotation=want_sig.empty)), '')
+                try:
+                    with warnings.catch_warnings():
+                        warnings.simplefilter('ignore')
+                        r = sphinxext.process_signature(None, 'function', mod.__name__ + '.' + dotted, None, None, '(PASSED)', 'RET')
+                except BaseException as e:  # noqa
+                    problems.append('sphinx-hook-raises: process_signature(%s) raised %s: %s' % (dotted, type(e).__name__, str(e)[:80]))
+                    continue
+                if r != want:
+                    problems.append('sphinx-hook-strings: process_signature(%s) returned %r; calling it takes %r' % (dotted, r, want))
+        finally:
+            _sys.modules.pop(mod.__name__, None)
+    finally:
+        progs.unload(fname)
+    return ('ok', tuple(problems[:14]), 'objects:%d' % n)
+
+
+RT['adversarial2'] = rt_adversarial2
